@@ -1,6 +1,9 @@
 open Base
 open BinNums
+open Doc
 open GenChars
+open GenNs
+open GenStyleRefs
 open XmlLex
 open XmlPrint
 open XmlTree
@@ -22,3 +25,17 @@ val i_write_open_tag : nsenv -> bool -> qname -> (qname * str) list -> str
 val i_xml_parse : str -> node option
 
 val i_lex : str -> tok list option
+
+val coq_RA : qname list
+
+val i_used_auto_styles : node list -> node -> node list
+
+val i_contentxml : nsenv -> odfdoc -> str
+
+val i_stylesxml : nsenv -> odfdoc -> str
+
+val i_metaxml : nsenv -> odfdoc -> odfdoc * str
+
+val i_settingsxml : nsenv -> odfdoc -> str
+
+val i_flatxml : nsenv -> odfdoc -> odfdoc * str
